@@ -141,8 +141,10 @@ pub fn run_case(c: &Case) -> CaseOut {
     match c {
         Case::TreeTree { a, b, op, elim_a } => {
             let rec = json!({"a": a.to_json(), "b": b.to_json(), "op": op.to_string(), "a_eliminated_first": elim_a});
-            let mut ta: AffTree<2> = a.build();
-            let tb: AffTree<2> = b.build();
+            // operand storage: every combination of row-major / column-major matrices, re-used indices
+            let lsel = (a.n_nodes() * 3 + b.n_nodes() + (*op as usize)) % 4;
+            let mut ta: AffTree<2> = a.build_layout([0u8, 3, 2, 3][lsel]);
+            let tb: AffTree<2> = b.build_layout([3u8, 0, 3, 1][lsel]);
             let sa0 = snap(&ta);
             if *elim_a {
                 if catch(|| ta.infeasible_elimination()).is_err() {
@@ -198,9 +200,9 @@ pub fn run_case(c: &Case) -> CaseOut {
         }
         Case::TreeAff { a, f, op } => {
             let rec = json!({"a": a.to_json(), "f": f.to_json(), "op": op.to_string()});
-            let ta: AffTree<2> = a.build();
+            let ta: AffTree<2> = a.build_layout(if a.n_nodes() % 2 == 0 { 3 } else { 0 });
             let sa = snap(&ta);
-            let fr = f.to_real();
+            let fr = if a.n_nodes() % 3 == 0 { f.to_real() } else { f.to_real_f() };
             let fm = f.to_map();
             let opc = *op;
             // f / a divides by a's terminal coefficients: only meaningful when none of them is zero
